@@ -397,6 +397,9 @@ func (muxHist) Generate(r *core.PRNG, tier string, idx int64) any {
 		k := idx / 4
 		return &MuxHistScenario{Period: 1 + int(k%2), Ops: enumHistory(k / 2), Enum: true}
 	}
+	if idx%churnEvery == 1 {
+		return genChurn(r)
+	}
 	sc := &MuxHistScenario{}
 	switch r.Pick(2, 3, 2, 1) {
 	case 0:
@@ -420,6 +423,30 @@ func (muxHist) Generate(r *core.PRNG, tier string, idx int64) any {
 		n = r.Range(91, 200)
 	}
 	sc.Ops = GenMuxOps(r, n, sc.Period, r.Chance(1, 3), true, true, true)
+	return sc
+}
+
+// churnEvery: one run in churnEvery is a long allocator churn (about 8 000 add/tables/remove
+// cycles, enough to take the automatic PID allocator once around the whole 13-bit PID space and
+// into the streams it left behind on the first pass).
+const churnEvery = 3001
+
+func genChurn(r *core.PRNG) *MuxHistScenario {
+	sc := &MuxHistScenario{Period: r.Range(1, 5)}
+	x := uint16(r.Range(0x20, 0x1ffe))
+	if r.Bool() {
+		x = uint16(r.Range(0x100, 0x110))
+	}
+	if x == 0x1000 {
+		x = 0x1001
+	}
+	sc.Ops = append(sc.Ops, MuxOp{Op: "add", H: -1, PID: x, Type: 0x1b}, MuxOp{Op: "setpcr", H: 0, PID: x})
+	n := r.Range(7700, 8600)
+	if r.Chance(1, 4) {
+		n = r.Range(15800, 16400) // twice around
+	}
+	sc.Ops = append(sc.Ops, MuxOp{Op: "churn", H: -1, Type: 0x0f, N: n, Keep: r.Range(0, 6)})
+	sc.Ops = append(sc.Ops, MuxOp{Op: "data", H: 0, PID: x, PES: &PESSpec{StreamID: 0xe0}, Len: r.Range(1, 400), Tag: 1})
 	return sc
 }
 
@@ -568,6 +595,16 @@ func shrinkOps(ops []MuxOp) [][]MuxOp {
 		case "add":
 			if len(op.Descs) > 0 {
 				mod(func(o *MuxOp) { o.Descs = nil })
+			}
+		case "churn":
+			for _, d := range []int{op.N / 2, 1000, 100, 10, 1} {
+				if d >= 1 && op.N-d >= 1 {
+					d := d
+					mod(func(o *MuxOp) { o.N -= d })
+				}
+			}
+			if op.Keep > 0 {
+				mod(func(o *MuxOp) { o.Keep = 0 })
 			}
 		}
 	}
